@@ -85,6 +85,87 @@ C_CG = 16.0  # gradient = products of <= 3 solves
 LANCZOS_JITTER = 1.0e-6  # settings.tridiagonal_jitter (relative to min diag T): R R^T = A + O(1e-6 |A|), not differentiated
 CIQ_TOL = 1.0e-7  # sqrt_inv_matmul: msMINRES tolerance set to 1e-10, quadrature error (Q=15, kappa<=1e6) <= 1e-8
 C_MEMEFF = 64.0  # memory_efficient on/off: same operations on the same numbers, at most re-association
+DIAG_KMAT_JITTER = 1.0e-10  # functions/_diagonalization.py backward: kmat = 1 / (s_i - s_j + 1e-10)
+LANCZOS_BREAKDOWN = 1.0e-6  # utils/lanczos.py: the iteration stops when every |beta| <= 1e-6 (absolute)
+
+
+def _diag_jitter_term(runs):
+    """Error model of Diagonalization.backward (Lanczos diagonalisation of a matrix M = U S U^T, Ionescu et al.):
+        dL/dM = U (K^T o (U^T dL/dU)) U^T + U diag(dL/dS) U^T,     K_ij = 1 / (s_i - s_j + 1e-10)   (the library's jitter)
+    instead of 1 / (s_i - s_j): every off-diagonal entry of the first term carries the relative error 1e-10 / |s_i - s_j|.
+    For a function of M alone the eigenvector term and the eigenvalue term are individually of size |G| s_max / gap and
+    cancel down to |G| (G: the exact dL/dM), so the error relative to |G| is
+        n * 1e-10 * s_max / gap^2           (n terms per entry of U (.) U^T with |U_ij| <= 1 and sum_i |U_ai| <= sqrt(n))
+    with gap the smallest eigenvalue gap of the diagonalised matrix (read off the tridiagonal matrix the run produced).
+    Exact ties never reach this model: Lanczos breaks down there (see _LanczosWatch)."""
+    term = 0.0
+    for r in runs:
+        if r["caller"] == "diagonalization" and math.isfinite(r["smax_over_gap2"]):
+            term = max(term, 2.0 * r["n"] * DIAG_KMAT_JITTER * r["smax_over_gap2"])
+    return term
+
+
+class _LanczosWatch:
+    """Observes every single-probe Lanczos run the library makes (functions/_root_decomposition.py and
+    functions/_diagonalization.py call  lanczos.lanczos_tridiag  through the module attribute) -- the library's result is
+    returned unchanged.
+
+    Domain: Q T Q^T is a decomposition of the matrix only when the Krylov space of the probe vector is the whole space.  It
+    is not when the matrix has a repeated eigenvalue (identity / constant-diagonal factors, ...): then some beta_j is zero up
+    to rounding -- the library stops with fewer columns than requested (|beta| <= 1e-6, utils/lanczos.py) or, at step 0 / for
+    one member of a batch (neither is tested there), continues on normalised rounding noise.  What the consumers (structured
+    solves of SumKronecker / KroneckerProductAddedDiag, Lanczos roots) then compute is not the function C07 differentiates:
+    it is the forward defect recorded as F-C04-lanczos-structured-solve / F-C09-first-step-breakdown /
+    F-C09-mixed-breakdown-batch (owned by C04 / C09).  Such a run is `deficient`; the case is counted, not compared."""
+
+    def __init__(self):
+        self.runs = []
+
+    def __enter__(self):
+        from linear_operator.utils import lanczos as lz
+
+        self._mod = lz
+        self._orig = lz.lanczos_tridiag
+        watch = self
+
+        def lanczos_tridiag(matmul_closure, max_iter, *args, **kwargs):
+            import sys
+
+            q_mat, t_mat = watch._orig(matmul_closure, max_iter, *args, **kwargs)
+            try:
+                fn = sys._getframe(1).f_code.co_filename
+                caller = "diagonalization" if fn.endswith("_diagonalization.py") else "root"
+                matrix_shape = kwargs.get("matrix_shape", args[2] if len(args) > 2 else None)
+                watch.runs.append(watch._analyse(t_mat.detach(), max_iter, matrix_shape, caller))
+            except Exception as e:  # the observation must never change the library's behaviour
+                watch.runs.append({"caller": "?", "deficient": True, "n": 0, "smax_over_gap2": float("inf"), "error": repr(e)})
+            return q_mat, t_mat
+
+        lz.lanczos_tridiag = lanczos_tridiag
+        return self
+
+    def __exit__(self, *a):
+        self._mod.lanczos_tridiag = self._orig
+        return False
+
+    @staticmethod
+    def _analyse(t_mat, max_iter, matrix_shape, caller):
+        n = int(matrix_shape[-1])
+        k = int(t_mat.shape[-1])
+        deficient = k < min(int(max_iter), n) or not bool(torch.isfinite(t_mat).all())
+        ratio = 0.0
+        if not deficient and k > 1:
+            beta = t_mat.diagonal(offset=1, dim1=-2, dim2=-1)
+            deficient = bool((beta.abs() <= LANCZOS_BREAKDOWN).any())
+        if not deficient and k > 1:
+            ev = torch.linalg.eigvalsh(t_mat.to(torch.float64))
+            gap = (ev[..., 1:] - ev[..., :-1]).min(dim=-1)[0]
+            smax = ev.abs().max(dim=-1)[0]
+            ratio = float((smax / (gap * gap)).max()) if bool((gap > 0).all()) else float("inf")
+        return {"caller": caller, "deficient": bool(deficient), "n": n, "smax_over_gap2": ratio}
+
+    def deficient(self):
+        return any(r["deficient"] for r in self.runs)
 
 
 def _rtol(path, kappa, lmin=1.0):
@@ -346,9 +427,10 @@ def cases(draw, tier):
                         for key in ("li", "ri"):
                             node[key]["lit"] = gen._map2(node[key]["lit"], lambda v: v % k)
     case["rg_mode"] = _mark_leaves(draw, rs, allow_exp="no_expanded_leaves" not in trig)
-    if "singular_kronecker_factor_symeig" in trig:
+    if "singular_kronecker_factor_symeig" in trig or "symeig_negative_rounded_eigenvalue" in trig:
         # avoid exactly the trigger: the singular PSD sub-matrix F is replaced by the (positive definite) dense matrix F + I
-        for parent, (key, i), f in _singular_kron_factors(rs):
+        found = _singular_kron_factors(rs) if "singular_kronecker_factor_symeig" in trig else _neg_rounded_kron_factors(rs)
+        for parent, (key, i), f in found:
             M = refmodel.dense(f)
             M = 0.5 * (M + M.mT) + torch.eye(M.shape[-1], dtype=M.dtype)
             repl = {"op": "Dense", "t": L.lit(M.tolist(), "f64")}
@@ -903,10 +985,14 @@ class _Run:
         torch.manual_seed(state.case_seed(case))
         self.b = _build(case)
         self.lines = []
+        self.lanczos = []  # one record per single-probe Lanczos run (see _LanczosWatch)
 
     def forward(self):
-        with state.apply_settings(self.cell), state.linalg_log() as lines:
-            self.outs = lib_out(self.case["ep"], self.b)
+        with state.apply_settings(self.cell), state.linalg_log() as lines, _LanczosWatch() as watch:
+            try:
+                self.outs = lib_out(self.case["ep"], self.b)
+            finally:
+                self.lanczos += watch.runs
         self.lines += lines
         return self.outs
 
@@ -914,13 +1000,19 @@ class _Run:
         inputs = [t for _, t in self.b.leaves]
         Ws = _cotangents(self.outs, self.case["w"])
         loss = sum((W * o).sum() for W, o in zip(Ws, self.outs))
-        with state.apply_settings(self.cell), state.linalg_log() as lines:
-            if inputs and loss.requires_grad:
-                grads = list(torch.autograd.grad(loss, inputs, allow_unused=True))
-            else:
-                grads = [None] * len(inputs)
+        with state.apply_settings(self.cell), state.linalg_log() as lines, _LanczosWatch() as watch:
+            try:
+                if inputs and loss.requires_grad:
+                    grads = list(torch.autograd.grad(loss, inputs, allow_unused=True))
+                else:
+                    grads = [None] * len(inputs)
+            finally:
+                self.lanczos += watch.runs
         self.lines += lines
         return grads
+
+    def lanczos_deficient(self):
+        return any(r["deficient"] for r in self.lanczos)
 
     def algos(self):
         return state.algorithms(self.lines)
@@ -1041,15 +1133,19 @@ def check(case):
         return done("illconditioned")
     if ep.startswith("sqrt_inv_matmul") and not _ciq_domain_ok(A, tref["rhs"]):
         return done("ciq_spectrum_not_covered")
+    if run.lanczos_deficient():
+        return done("lanczos_krylov_deficient")
+    # the tolerance follows the algorithm that actually RAN (the library's verbose_linalg log), not the settings cell: the
+    # structured classes answer max_cholesky_size=0 with their closed forms (eigendecompositions of the factors)
     path = "direct"
     algos = run.algos()
     if ep.startswith("sqrt_inv_matmul"):
         path = "ciq"
-    elif "cg" in algos or case["cell"].get("max_cholesky_size") == 0 and ep in ("solve", "solve_left", "inv_quad"):
+    elif "cg" in algos:
         path = "cg"
-    elif "lanczos" in algos or case["cell"].get("max_cholesky_size") == 0 and ep == "root_decomposition":
+    elif "lanczos" in algos:
         path = "lanczos"
-    rt = _rtol(path, kappa, lmin)
+    rt = _rtol(path, kappa, lmin) + _diag_jitter_term(run.lanczos)
     # ---- forward gate ------------------------------------------------------------------------------------------------------
     for o, ro in zip(outs, routs):
         if not bool(torch.isfinite(ro).all()):
@@ -1066,11 +1162,17 @@ def check(case):
         if X.is_declined(e, declined_kind):
             return done("declined")
         fail("grad", "exc:" + X.describe(e), "the backward pass raised %r" % (e,))
+    if run.lanczos_deficient():
+        return done("lanczos_krylov_deficient")
     algos = run.algos()
-    if path == "direct" and "cg" in algos:
+    if path in ("direct", "lanczos") and "cg" in algos:
         path = "cg"
-        rt = _rtol(path, kappa, lmin)
+    elif path == "direct" and "lanczos" in algos:
+        path = "lanczos"
+    rt = _rtol(path, kappa, lmin) + _diag_jitter_term(run.lanczos)
     labels.append("path:" + path)
+    if any(r["caller"] == "diagonalization" for r in run.lanczos):
+        labels.append("lanczos_diagonalization")
     labels += ["algo:" + a for a in algos]
     # ---- reference gradients -------------------------------------------------------------------------------------------------
     Ws = _cotangents(routs, case["w"])
@@ -1148,6 +1250,8 @@ def check(case):
         g_lib2 = run2.backward()
     except Exception as e:
         fail("memeff", "exc:" + X.describe(e), "with memory_efficient=%s the same call raised %r" % (not me, e))
+    if run2.lanczos_deficient():
+        return done("lanczos_krylov_deficient")
     g_first = [_zeros_if_none(g, t).detach() for g, (_, t) in zip(g_lib, b.leaves)]
     ratio2, where2 = compare(g_lib2, g_first, "memeff", C_MEMEFF * U64, "memory_efficient=%s vs %s" % (not me, me))
     if ratio2 > 1.0:
@@ -1433,6 +1537,26 @@ def _singular_kron_factors(recs):
     return found
 
 
+EXACT_DENSE = {"Dense", "Minimal", "Diag", "ConstantDiag", "Toeplitz", "Identity"}  # to_dense() is the data itself, bit for bit
+
+
+def _symeig_rounds_negative(f):
+    """Does LinearOperator._symeig see a NEGATIVE eigenvalue for this singular PSD sub-matrix?  It calls torch.linalg.eigh on
+    the dense matrix; a zero eigenvalue comes back as 0.0 (diagonal / zero matrices: gradient kept since /repo 5c6550c) or as
+    +-1e-17 of rounding noise -- the negative ones are replaced by a constant (`torch.where(evals < 0, 0, evals)`) and lose
+    their gradient.  The same LAPACK call on the same bits decides here; for composite sub-matrices (whose to_dense() may
+    round differently from the reference's assembly) every singular one counts."""
+    if f["op"] not in EXACT_DENSE:
+        return True
+    M = refmodel.dense(f)
+    w = torch.linalg.eigh(M)[0]
+    return bool((w < 0).any())
+
+
+def _neg_rounded_kron_factors(recs):
+    return [(p, s, f) for p, s, f in _singular_kron_factors(recs) if _symeig_rounds_negative(f)]
+
+
 def _has_kron_added_diag(r):
     return any(n["op"] in ("KroneckerAddedDiag", "SumKronecker") for n in R.walk(r))
 
@@ -1464,6 +1588,7 @@ TRIGGERS = {
     "symeig_root_repeated_eigenvalues": _symeig_root_repeated,
     "lanczos_diagonalization": lambda case: case["cell"].get("max_cholesky_size") == 0 and _has_kron_added_diag(case["recipe"]),
     "singular_kronecker_factor_symeig": lambda case: bool(_singular_kron_factors([case["recipe"]] + ([case["recipe2"]] if "recipe2" in case else []))),
+    "symeig_negative_rounded_eigenvalue": lambda case: bool(_neg_rounded_kron_factors([case["recipe"]] + ([case["recipe2"]] if "recipe2" in case else []))),
     "batched_interp_values_under_autograd_derivative": lambda case: bool(
         _batched_interp_under_autograd([case["recipe"]] + ([case["recipe2"]] if "recipe2" in case else []))
     ),
